@@ -3,6 +3,7 @@ package props
 import (
 	"errors"
 	"fmt"
+	"io"
 	"sort"
 	"time"
 
@@ -281,6 +282,9 @@ func (c03) Run(e *Env) {
 }
 
 var errInjected = errors.New("injected fault")
+
+// errInjectedClosed is the same fault as reported by a transport that has gone away.
+var errInjectedClosed = fmt.Errorf("%w: %w", errInjected, io.ErrClosedPipe)
 
 //go:norace
 func c03Arrive(m *c03Model, seq uint16) { m.add(seq); m.track.inner++ }
